@@ -74,19 +74,16 @@ Fixpoint is_prefix_s (a b : list string) : bool :=
   | _ :: _, [] => false
   end.
 
-(* One user's home, judged on observed data.  [earlier] = homes of the entries
-   processed before this one (pre-existing entries first: the code creates
-   THEIR missing homes too).  A home that is one of those, or a parent of one,
-   "already existed" by the time this user is processed, so only its being a
-   directory is demanded. *)
-Definition home_violations (c_dump c_layer : list dentry) (earlier : list string) (u : cuser)
+(* One user's home, judged on observed data.  [fst h] is Stat(home) at the time
+   this user is processed: the harness obtains it by running the real
+   mutateAccounts with only the EARLIER configured users on a fresh copy of the
+   tree (the code creates the missing homes of pre-existing entries and of
+   earlier users first, so a home shared with one of those, or a parent of one,
+   "already existed"). *)
+Definition home_violations (c_dump c_layer : list dentry) (u : cuser)
   (h : option sinfo * option sinfo) : list string :=
   let home := spec_home u in
   if String.eqb home spec_no_home then [] else
-  let covered := existsb (fun e => negb (String.eqb e spec_no_home) && is_prefix_s (parts home) (parts e)) earlier in
-  if covered then
-    tag_if (negb (match snd h with Some a => kind_eqb (si_kind a) KDir | None => false end)) "viol:home-missing"
-  else
     tag_if (negb (home_realised_b (cu_uid u) (spec_gid u) (fst h) (snd h)))
       (match fst h with
        | None => if ends_with_slash home && negb (match parts home with [] => true | _ => false end)
@@ -106,13 +103,10 @@ Definition home_violations (c_dump c_layer : list dentry) (earlier : list string
         end
     | _, _ => []
     end.
-Fixpoint homes_violations (c_dump c_layer : list dentry) (earlier : list string)
+Definition homes_violations (c_dump c_layer : list dentry)
   (l : list (cuser * (option sinfo * option sinfo))) : list string :=
-  match l with
-  | [] => []
-  | (u, h) :: t => home_violations c_dump c_layer earlier u h ++
-                   homes_violations c_dump c_layer (earlier ++ [spec_home u]) t
-  end.
+  List.concat (List.map (fun uh : cuser * (option sinfo * option sinfo) =>
+                           home_violations c_dump c_layer (fst uh) (snd uh)) l).
 
 (* the validators, on observed data only *)
 Definition acc_violations (c : acc_case) : list string :=
@@ -121,7 +115,7 @@ Definition acc_violations (c : acc_case) : list string :=
    | Some old, Some new =>
        tag_if (negb (passwd_realised_b old (a_users c) new)) "viol:passwd-not-old-plus-configured" ++
        tag_if (negb (run_as_resolved_b (a_run_as c) new (ao_run_as c))) "viol:run-as-not-first-match" ++
-       homes_violations (ao_dump c) (ao_layer c) (List.map ue_home old) (zip3 (a_users c) (ao_homes c))
+       homes_violations (ao_dump c) (ao_layer c) (zip3 (a_users c) (ao_homes c))
    | _, _ => ["viol:passwd-unreadable"]
    end) ++
   (match a_groups c with
@@ -145,7 +139,12 @@ Definition acc_mismatches (c : acc_case) : list string :=
           tag_if (negb (String.eqb (file_text maxl f1 etc_passwd) (ao_passwd c))) "mismatch:passwd-text" ++
           tag_if (negb (String.eqb (file_text maxl f1 etc_group) (ao_group c))) "mismatch:group-text" ++
           tag_if (negb (list_eqb (fun a b => option_eqb sinfo_eqb (fst a) (fst b) && option_eqb sinfo_eqb (snd a) (snd b))
-                          (List.map (fun u => (stat_info maxl f0 (spec_home u), stat_info maxl f1 (spec_home u))) (a_users c))
+                          (List.map (fun ku : nat * cuser =>
+                             (match mutate_accounts maxl f0 (firstn (fst ku) (a_users c)) [] "" with
+                              | FOk (fk, _) => stat_info maxl fk (spec_home (snd ku))
+                              | _ => None end,
+                              stat_info maxl f1 (spec_home (snd ku))))
+                           (zip3 (seq 0 (List.length (a_users c))) (a_users c)))
                           (ao_homes c))) "mismatch:home-stat" ++
           tag_if (negb (dump_same (dump f1) (ao_dump c))) "mismatch:tree" ++
           tag_if (negb (dump_same (layer_of f1) (ao_layer c))) "mismatch:layer" ++
